@@ -1,6 +1,7 @@
 package main
 
 import (
+	"fmt"
 	"math/rand"
 	"sort"
 
@@ -607,6 +608,32 @@ func genRectilinear(r *rand.Rand, w Window) ([][]Pt, bool) {
 	return poly, validPolygon(poly)
 }
 
+// genTrapezium: a trapezium whose two top corners lie in the pixel columns of the sides of a rectangular hole: every
+// hole vertex has, exactly above it, a shell VERTEX whose two edges are both non-vertical (the ray cast of
+// ringContains passes through a vertex; only the nudge to the right keeps the parity right).
+func genTrapezium(r *rand.Rand, w Window) ([][]Pt, bool) {
+	step := w.G.Res / w.Unit
+	n := w.N()
+	if step < 2 || n < 7*step {
+		return nil, false
+	}
+	x0 := r.Int63n(step)
+	x1 := x0 + step*(1+r.Int63n(2)) + r.Int63n(step)
+	x2 := x1 + step*(2+r.Int63n(2))
+	x3 := x2 + step*(1+r.Int63n(2)) + r.Int63n(step)
+	y0 := r.Int63n(step)
+	y1 := y0 + step*(4+r.Int63n(2))
+	if x3 > n || y1 > n {
+		return nil, false
+	}
+	shell := []Pt{w.pt(x0, y0), w.pt(x3, y0), w.pt(x2, y1), w.pt(x1, y1)}
+	h0 := y0 + step + r.Int63n(step)
+	h1 := h0 + step + r.Int63n(step)
+	hole := []Pt{w.pt(x1, h0), w.pt(x1, h1), w.pt(x2, h1), w.pt(x2, h0)}
+	poly := [][]Pt{shell, hole}
+	return poly, validPolygon(poly)
+}
+
 // deepRealCase: a valid polygon of a few pixels on a REAL grid at a deep tile matrix far from the origin
 // (WebMercatorQuad ids 17-20 around New Zealand / Western Europe): float cancellation territory.
 func deepRealCase(r *rand.Rand) (*Grid, [][]Pt, int, bool) {
@@ -630,6 +657,9 @@ func deepRealCase(r *rand.Rand) (*Grid, [][]Pt, int, bool) {
 		poly, _ := genValidPolygon(r, w)
 		if rect {
 			pp, okr := genRectilinear(r, w)
+			if r.Intn(2) == 0 {
+				pp, okr = genTrapezium(r, w)
+			}
 			if !okr {
 				continue
 			}
@@ -645,8 +675,14 @@ func deepRealCase(r *rand.Rand) (*Grid, [][]Pt, int, bool) {
 			}
 		}
 		if ok && validPolygon(poly) && g.inGrid(poly) {
+			lastDeepKind = "deep real grid"
+			if rect {
+				lastDeepKind = fmt.Sprintf("deep real grid, rectilinear, %d ring(s)", len(poly))
+			}
 			return g, poly, id, true
 		}
 	}
 	return nil, nil, 0, false
 }
+
+var lastDeepKind string
